@@ -33,7 +33,8 @@ Inductive plop :=
 | PAppend (v : Z) | PExtend (vs : list Z) | PInsert (i : Z) (v : Z) | PPop (oi : option Z)
 | PRemove (v : Z) | PSetItem (i : Z) (v : Z) | PSetSlice (sl : pyslice) (vs : list Z)
 | PDelItem (i : Z) | PDelSlice (sl : pyslice) | PClear | PIAdd (vs : list Z) | PIMul (n : Z)
-| PReverse | PSort.
+| PReverse | PSort
+| PAssign (vs : list Z).          (* obj.proxy = vs : _bulk_replace = self.clear(); self.extend(values) *)
 
 (* results: exceptions of the builtin plus NotImplementedError *)
 Inductive pres := POk | PRaise (e : pyexn) | PNotImpl.
@@ -150,6 +151,7 @@ Definition pl_step (s : px) (o : plop) : pres * px :=
       else if (1 <? n)%Z then (POk, pl_extend s (py_imul (to_list s) (n - 1)%Z))
       else (POk, s)
   | PReverse | PSort => (PNotImpl, s)
+  | PAssign vs => (POk, pl_extend (pl_clear s) vs)
   end.
 
 (* the builtin list under the same operation *)
@@ -170,6 +172,7 @@ Definition plop_ref (l : list Z) (o : plop) : pres * list Z :=
   | PIMul n => of_py (py_list_op l (LIMul n))
   | PReverse => (POk, rev l)
   | PSort => (POk, l)      (* placeholder: sort is documented as unsupported on the proxy *)
+  | PAssign vs => (POk, vs)          (* l = vs *)
   end.
 
 (* where the list proxy is known not to be the builtin: slice assignment unless
@@ -266,6 +269,16 @@ Definition psop_ref (l : list Z) (o : sop) : pres * list Z :=
   end.
 End SetOrd.
 
+(* obj.proxy = values  (_AssociationSet._bulk_replace):
+     existing = set(self); constants = existing & values; additions = values - constants
+     removals = existing - constants
+     for member in values: if member in additions: self.add(member) elif member in constants: self.add(member)
+     for member in removals: self.remove(member) *)
+Definition ps_assign (s : px) (vs : list Z) : px :=
+  let existing := to_list s in
+  let s1 := fold_left ps_add vs s in
+  fold_left ps_discard (filter (fun x => negb (mem x vs)) existing) s1.
+
 (* ------------------------------------------------------------------ dict proxy *)
 (* col is a dict keyed on the intermediary's key attribute *)
 Fixpoint find_key (f : nat -> Z) (k : Z) (c : list nat) : option nat :=
@@ -336,5 +349,15 @@ Definition pd_guard (s : px) (o : dop) : bool :=
   | DIor _ => false
   | _ => true
   end.
+
+(* obj.proxy = mapping  (_AssociationDict._bulk_replace):
+     existing = set(self); constants = existing & keys(values); additions = keys(values) - constants
+     removals = existing - constants
+     for key, member in values.items(): self[key] = member        (additions AND constants)
+     for key in removals: del self[key] *)
+Definition pd_assign (s : px) (m : pydict) : px :=
+  let existing := map fst (to_dict s) in
+  let s1 := fold_left (fun acc kv => pd_setitem acc (fst kv) (snd kv)) m s in
+  fold_left pd_del (filter (fun k => negb (mem k (map fst m))) existing) s1.
 
 Definition px_empty : px := mkPx [] (fun _ => 0%Z) (fun _ => 0%Z) 0.
